@@ -1122,12 +1122,15 @@ class SessionTransaction(_StateChange, TransactionalContext):
             # if we expunged or not, but safe_discard does that anyway
             self.session.identity_map.safe_discard(s)
 
-            # restore the old key
-            s.key = oldkey
+            if s in to_expunge:
+                # the object was added in this transaction and has just
+                # been sent back to the transient state; it must not be
+                # given an identity key again
+                continue
 
-            # now restore the object, but only if we didn't expunge
-            if s not in to_expunge:
-                self.session.identity_map.replace(s)
+            # restore the old key and the object
+            s.key = oldkey
+            self.session.identity_map.replace(s)
 
         for s in set(self._deleted).union(self.session._deleted):
             self.session._update_impl(s, revert_deletion=True)
